@@ -40,7 +40,7 @@ MAXSTEP = 12                          # a save has at most 11 primitive steps
 RULE = ("histories of 1-9 operations over four save locations (default <label>/picklestorage, <label>/recovery as an "
         "absolute Path, 'sub/fn' and the bare 'fn' as strings): saves of picklable / cloudpickle-only / unserialisable "
         "content with and without cloudpickle_fallback, each possibly interrupted at any primitive step (write cut at "
-        "0, 1, mid, len-1 bytes), Node.load into nodes of the same or another class (two function-node classes, "
+        "0, 1, mid, len-1 bytes), Node.load into nodes of the same or another class (two function-node classes, a hand-written class and its subclass, "
         "Workflow, and two DISTINCT Function subclasses sharing module and qualified name; every ordered pair "
         "saver/loader via explicit name, default name and autoload), construction with autoload / "
         "delete_existing_savefiles, delete_storage, foreign files; plus the exhaustive family prior-state x content x "
@@ -100,13 +100,32 @@ def _make_calc(kind):
     return Calc
 
 
+from pyiron_workflow.nodes.function import Function as _Function  # noqa: E402
+
+
+class CalcE(_Function):
+    """hand-written, importable: plain pickle takes it by reference"""
+    @staticmethod
+    def node_function(x=0):
+        y = x
+        return y
+
+
+class CalcD(CalcE):
+    """a SUBCLASS of CalcE with one more input: still another class for Node.load, whichever of the two saved"""
+    @staticmethod
+    def node_function(x=0, shift=7):
+        y = x
+        return y
+
+
 CalcP, CalcQ = _make_calc("p"), _make_calc("q")
 assert CalcP is not CalcQ and (CalcP.__module__, CalcP.__qualname__) == (CalcQ.__module__, CalcQ.__qualname__)
 import cloudpickle as _cloudpickle  # noqa: E402
 # give both classes their cloudpickle tracker id NOW, so that a dump made by a forked child and read back
 # by this process is recognised as the very same class
 _cloudpickle.dumps(CalcP), _cloudpickle.dumps(CalcQ)
-CLASSES = {"A": C19A, "B": C19B, "W": Workflow, "P": CalcP, "Q": CalcQ}
+CLASSES = {"A": C19A, "B": C19B, "W": Workflow, "P": CalcP, "Q": CalcQ, "E": CalcE, "D": CalcD}
 LOCAL = ("P", "Q")    # classes plain pickle cannot serialise: every save of theirs goes to cloudpickle
 
 
@@ -273,7 +292,7 @@ def _cname(inst):
         return "P"
     if t is CalcQ:
         return "Q"
-    return {"C19A": "A", "C19B": "B", "Workflow": "W"}.get(t.__name__, t.__name__)
+    return {"C19A": "A", "C19B": "B", "Workflow": "W", "CalcE": "E", "CalcD": "D"}.get(t.__name__, t.__name__)
 
 
 def _state(inst):
@@ -558,7 +577,7 @@ def _cloc(loc):
 
 
 def _ccls(c):
-    return {"A": "CA", "B": "CB", "W": "CW", "P": "CP", "Q": "CQ"}[c]
+    return {"A": "CA", "B": "CB", "W": "CW", "P": "CP", "Q": "CQ", "E": "CE", "D": "CD"}[c]
 
 
 def _ekind(cls, kind):
@@ -602,7 +621,7 @@ def _rand_save(rng, loc, v, crash_p=0.45):
     crash = None
     if rng.random() < crash_p:
         crash = [rng.randrange(0, MAXSTEP), rng.randrange(0, 4)]
-    cls = rng.choice(["A", "A", "A", "B", "W", "P", "Q"])
+    cls = rng.choice(["A", "A", "A", "B", "W", "P", "Q", "E", "D"])
     if cls in LOCAL:
         fb = True     # without the fallback _save refuses a non-importable class up front (TypeNotFoundError): not modelled
     return ["save", loc, cls, v, kind, fb, crash]
@@ -627,10 +646,10 @@ def _rand_case(rng):
             last_cls[loc] = op[2]
             ops.append(op)
         elif r < 0.66:
-            cls = last_cls.get(loc, "A") if rng.random() < 0.6 else rng.choice(["A", "B", "W", "P", "Q"])
+            cls = last_cls.get(loc, "A") if rng.random() < 0.6 else rng.choice(["A", "B", "W", "P", "Q", "E", "D"])
             ops.append(["load", loc, cls, 100 + v])
         elif r < 0.78:
-            cls = last_cls.get("default", "A") if rng.random() < 0.65 else rng.choice(["A", "B", "W", "P", "Q"])
+            cls = last_cls.get("default", "A") if rng.random() < 0.65 else rng.choice(["A", "B", "W", "P", "Q", "E", "D"])
             ops.append(["ctor", cls, rng.random() < 0.25, rng.random() < 0.85])
         elif r < 0.93:
             ops.append(["delete", loc])
@@ -672,7 +691,7 @@ def _class_family():
     """every ordered pair (class that saved, class that loads) -- including the two distinct classes that share
     module and qualified name -- through an explicit file name, the shared default file name, and autoload"""
     out = []
-    names = ["A", "B", "W", "P", "Q"]
+    names = ["A", "B", "W", "P", "Q", "E", "D"]
     for i, a in enumerate(names):
         for b in names:
             v = 3 + i
